@@ -7,23 +7,37 @@ PROPERTY = {
     'OrderedDict is represented as a plain dict, add_to_dumper picks the '
     'representer kind per class kind and import-time registration lands on '
     'yatiml.Dumper; Representer.__sweeten runs the sweeten hooks of the '
-    'registered bases first and then the class\'s own (ghost trace, pyvc), '
+    'registered bases first and then the class\'s own (ghost trace, pyvc); '
+    'Representer.__call__ hands PyYAML a plain map tag and exactly the '
+    'object\'s projection in order (parameters in declaration order, extras '
+    'after them in theirs, or what _yatiml_attributes returns) and then '
+    'sweetens (pyvc, ghost state represented_items()); '
     'the enum/string/path representers build plain str scalars (pyvc).',
     'trusted': ['E-REPRESENT: SafeRepresenter.represent_mapping/represent_str '
                 'node shapes', 'E-EMIT: PyYAML writes no tag for default '
                 'tags', 'pyvc.glue abstract interpretation',
-                'NOT YET UNDER CONTRACT: Representer.__call__ (attribute '
-                'order, frame on data)'],
+                'E-ATTR: hasattr/getattr on the dumped object as '
+                'uninterpreted functions; E-ARGSPEC; H-ATTRS: '
+                '_yatiml_attributes() is a function of the object and may '
+                'raise anything',
+                'constructed Python values are immutable terms in the model: '
+                '"dumping never modifies the object graph" is decided for '
+                'the representers by the absence of any store to the object '
+                '(a store is outside the interpreted subset and is reported) '
+                'and end-to-end only by the bounded stand-in'],
     'assumptions': [],
 }
 R = 'yatiml/representers.py::'
 
 
 def check(run):
+    from checks.main import dump_bounded
+    dump_bounded(run)
     ctx = GC.Ctx(run, 'C06')
     GC.dumper_init(ctx)
     GC.representer_registration(ctx)
-    run.verify_functions([R + 'Representer.__sweeten',
+    run.verify_functions([R + 'Representer.__call__',
+                          R + 'Representer.__sweeten',
                           R + 'EnumRepresenter.__call__',
                           R + 'UserStringRepresenter.__call__',
                           R + 'PathRepresenter.__call__'], lemmas=False)
